@@ -125,6 +125,17 @@ CHECKS["C13"] = {
     ],
 }
 
+CHECKS["C09"] = {
+    "harness": "c09",
+    "level": "exploration",
+    "floor": {"quick": 300, "thorough": 1000},
+    "timeout": {"quick": 1500, "thorough": 7200},
+    "assumptions": [
+        "facts about partitions/segments are checked as preserved: a clause is only demanded after the deletion if it held before",
+        "strip-based geometry: only validity of indices is demanded (the statement exempts strips from the exact-triangle clause)",
+    ],
+}
+
 for _pid, _floor in (("C18", 1000), ("C19", 1000), ("C20", 1000)):
     CHECKS[_pid] = {
         "harness": _pid.lower(),
